@@ -276,7 +276,16 @@ fn run(batch: &str, idx: u64, seed: u64, tier: Tier) -> RunOut {
                 out.distinct.push(hash_debug(&(&case.prog, ex.chosen_seq())));
             }
             let ending = exec_ending(&r, i);
-            if let Ok(st) = crate::model::lockstep(&case.prog, ex, ending) {
+            let ls = crate::model::lockstep(&case.prog, ex, ending);
+            if let Err(m) = &ls {
+                // a task that has just started an operation whose arrival is visible to others (FIFO position,
+                // rendezvous) must be offered before it arrives: "enabled task not offered" right after a
+                // start is exactly a missing choice point
+                if m.class == "enabled-task-not-offered" || m.class == "offered-set-inconsistent" {
+                    out.violation(format!("C02:model:{}", m.class), format!("exec {} step {}: {}", i, m.step, m.detail), case_json(&case));
+                }
+            }
+            if let Ok(st) = ls {
                 for (kind, (n, example)) in &st.same_step {
                     out.count(&format!("same_step_completion_{}", kind), *n);
                     const HARMLESS: [&str; 15] = ["CallOnce", "LazyGet", "StaticOnce", "Park", "Rand", "ScopeEnd", "ThreadInfo", "LabelSet", "LabelGet", "TlsWith", "ResetSteps", "SemCancel", "CatchBegin", "CatchEnd", "Fail"];
@@ -303,7 +312,13 @@ fn replay(case: &Value) -> RunOut {
     if let Some(c) = case_from_json(case) {
         let r = run_case(&c);
         for (i, ex) in r.rt.execs.iter().enumerate() {
-            if let Ok(st) = crate::model::lockstep(&c.prog, ex, exec_ending(&r, i)) {
+            let ls = crate::model::lockstep(&c.prog, ex, exec_ending(&r, i));
+            if let Err(m) = &ls {
+                if m.class == "enabled-task-not-offered" || m.class == "offered-set-inconsistent" {
+                    out.violation(format!("C02:model:{}", m.class), m.detail.clone(), case.clone());
+                }
+            }
+            if let Ok(st) = ls {
                 for (kind, (n, example)) in &st.same_step {
                     if !["CallOnce", "LazyGet", "StaticOnce", "Park", "Rand", "ScopeEnd", "ThreadInfo", "LabelSet", "LabelGet", "TlsWith", "ResetSteps", "SemCancel", "CatchBegin", "CatchEnd", "Fail"].contains(&kind.as_str()) {
                         out.violation(format!("C02:no-choice-point-before:{}", kind), format!("{} x{} e.g. {}", kind, n, example), case.clone());
